@@ -82,6 +82,35 @@ def envelope_soups(rng, exhaustive_len, n_random):
     return out
 
 
+def layout_texts(rng, cases, n):
+    """documents re-laid-out with line breaks after the terminators and, here and there, a terminator alone on its line, runs of
+    line breaks, a line break before a terminator: segments that consist of line-break characters only"""
+    out = []
+    pool = [c for c in cases if c[2].startswith('ISA') and len(c[2]) > 106 and c[2][105] not in '\r\n']
+    for _ in range(n):
+        if not pool:
+            break
+        kind, what, text = rng.choice(pool)
+        t = text[105]
+        brk = rng.choice(['\n', '\r\n', '\r'])
+        pieces = text.split(t)
+        res = []
+        for i, pc in enumerate(pieces[:-1]):
+            res.append(pc + t + brk)
+            r = rng.random()
+            if r < 0.08:
+                res.append(t + brk)                      # a terminator alone on its line
+            elif r < 0.12:
+                res.append(brk + t + brk)                # a blank line closed by a terminator
+            elif r < 0.15:
+                res.append(brk * 2)                      # blank lines
+            elif r < 0.17:
+                res.append(' ' + brk + t)                # a blank, a break, a terminator
+        res.append(pieces[-1])
+        out.append(('layout', 'layout:' + what, ''.join(res)))
+    return out
+
+
 def reading(text, loops=(None, '2000A', 'ST_LOOP', 'DETAIL', '2300', 'GS_LOOP', 'TABLE2AREA3')):
     """plain reading and context-reader iteration: -> [exception names that escaped]"""
     import pyx12.error_handler
@@ -131,6 +160,7 @@ def run(ctx, report):
                         {'text': text[:3000], 'mask': mask, 'charset': setting[0], 'what': what})
     cases = pipecorr.documents(rng, 400 if thorough else 70, thorough)
     cases += arbitrary_texts(rng, 300 if thorough else 60)
+    cases += layout_texts(rng, cases, 120 if thorough else 30)
     pipecorr.run(report, ctx, rng, cases, 3 if thorough else 2, oracle)
     # envelope soups: plain reading and context iteration on all of them, the whole pipeline on a sample
     soups = envelope_soups(rng, 5 if thorough else 4, 600 if thorough else 100)
@@ -143,7 +173,7 @@ def run(ctx, report):
             report.fail('C07:%s-escapes:%s%s' % (which.split(':')[0], name, (':' + which.split(':')[1]) if ':' in which else ''),
                         '%s raised %s: %s' % (which, name, msg), {'text': text[:3000], 'what': what})
     # reading and context iteration
-    for (kind, what, text) in cases[:(400 if thorough else 90)]:
+    for (kind, what, text) in cases[:(400 if thorough else 90)] + [c for c in cases if c[0] == 'layout']:
         for (which, name, msg) in reading(text):
             report.count('reading-raises')
             report.fail('C07:%s-escapes:%s%s' % (which.split(':')[0], name, (':' + which.split(':')[1]) if ':' in which else ''),
